@@ -115,7 +115,7 @@ class Portfolio:
         with self.lock:
             self.solver_time[s] = self.solver_time.get(s, 0.0) + t
 
-    def solve_text(self, txt, txt_cvc5, tag):
+    def solve_text(self, txt, txt_cvc5, tag, cap=None):
         """returns (verdict, solver, seconds, answers); identical queries are solved once"""
         h = hashlib.sha1(txt.encode()).hexdigest()[:16]
         with self.lock:
@@ -128,14 +128,14 @@ class Portfolio:
             v, who, secs, answers = ent["res"]
             return v, who, 0.0, dict(answers, shared=True)
         try:
-            res = self._solve_text(txt, txt_cvc5, tag, h)
+            res = self._solve_text(txt, txt_cvc5, tag, h, cap or self.cap)
         except Exception as ex:
             res = ("unknown", None, 0.0, {"exception": repr(ex)})
         ent["res"] = res
         ent["ev"].set()
         return res
 
-    def _solve_text(self, txt, txt_cvc5, tag, h):
+    def _solve_text(self, txt, txt_cvc5, tag, h, cap):
         path = os.path.join(self.workdir, "%s-%s-%d.smt2" % (tag, h, os.getpid()))
         with open(path, "w") as f:
             f.write(txt)
@@ -145,13 +145,13 @@ class Portfolio:
             with open(path5, "w") as f:
                 f.write(txt_cvc5)
         t0 = time.time()
-        r, t = _run_one("z3new", path, min(self.quick_cap, self.cap))
+        r, t = _run_one("z3new", path, min(self.quick_cap, cap))
         self._acct("z3new", t)
         answers = {"z3new": r}
         if r in ("sat", "unsat"):
             self._cleanup(path, path5)
             return r, "z3new", time.time() - t0, answers
-        (verdict, who), ans2, t = _race(path, path5, self.cap, ["z3", "cvc5", "z3new"])
+        (verdict, who), ans2, t = _race(path, path5, cap, ["z3", "cvc5", "z3new"])
         for s in ans2:
             self._acct(s, t)
         answers.update({k + "#2": v for k, v in ans2.items()})
